@@ -3,7 +3,10 @@
 import json, os, subprocess, sys
 V = os.path.dirname(os.path.dirname(os.path.abspath(__file__)))
 sys.path.insert(0, V)
-from checks.registry import REG
+import glob
+REG = {}
+for f in glob.glob(os.path.join(V, "checks", "registry", "C*.json")):
+    REG[os.path.basename(f)[:-5]] = json.load(open(f))
 
 props = [json.loads(l) for l in open(os.path.join(V, "properties.jsonl"))]
 commits = subprocess.run(["git", "-C", "/repo", "log", "--format=%h %s"], capture_output=True, text=True).stdout.splitlines()
